@@ -315,7 +315,8 @@ def free_scripts(n, seed, quiesce):
     for i in range(n):
         P, W, N = rng.choice(FREE_CFGS)
         out.append({"id": "free-%d" % i, "P": P, "W": W, "N": N, "mode": rng.choice(["waiter", "poller"]), "steps": [],
-                    "free": True, "seed": rng.randrange(1 << 30), "quiesce": quiesce and i % 2 == 0, "block": i % 10 == 9})
+                    "free": True, "seed": rng.randrange(1 << 30), "quiesce": quiesce and i % 2 == 0, "block": i % 10 == 9,
+                    "werr": rng.choice([0, 0, 1, 2, 3]) if i % 10 != 9 else 0})
     return out
 
 
@@ -452,7 +453,9 @@ def check(pid, tier, seed, replay=None):
             free = free_scripts(6000 if thorough else 600, seed, quiesce=(pid == "C12"))
             covers, graphs = cover_scripts(mdir, COVER_THOROUGH if thorough else COVER_QUICK, quiesce=(pid == "C12"))
             log("%s: transition cover: %d walks over %d model transitions %.0fs" % (pid, len(covers), sum(g["edges"] for g in graphs.values()), time.time() - t0))
-            scripts = leads + directed + sims + blocked + free + covers
+            # a wrapped writer that fails once (its k-th Write returns an error): the diode must go on delivering
+            faulty = [dict(s, id=s["id"] + "-werr%d" % (1 + i % 3), werr=1 + i % 3) for i, s in enumerate(sims) if i % 4 == 0]
+            scripts = leads + directed + sims + blocked + free + covers + faulty
         log("%s: %d scripts (%d model leads)" % (pid, len(scripts), len(leads)))
         recs = play(player, sc, scripts, shards=min(NCPU, max(1, len(scripts) // 20)))
         log("%s: played %.0fs" % (pid, time.time() - t0))
